@@ -119,6 +119,8 @@ def vm_contracts(group=0):
             'stack.push_val(self.call_macro(&CelValue::from_null()': [('a_bound_function_wins_over_a_macro', 'self@.has_bindings && func_of(self@.bind, func_name@) is None && macro_of(self@.bind, func_name@) == Some(macro_)', ('C12', 'C01'))],
             'stack.push_val(construct_type(type_name, arg_values));': [('functions_and_macros_win_over_type_constructors', 'func_of(self@.bind, func_name@) is None && macro_of(self@.bind, func_name@) is None', ('C12', 'C01'))],
             'stack.push_val(func(CelValue::from_null(), arg_values));': [('the_bound_function_is_called', 'self@.has_bindings && func_of(self@.bind, func_name@) == Some(func)', ('C12', 'C01'))],
+            ('stack.push( CelValue::from_err(CelError::attribute( "obj", ident.as_str(), ))', 1): [('a_failed_object_is_not_replaced_by_an_absent_field_error', '!(obj is Err)', ('C08', 'C09', 'C01'))],
+            'stack.push(obj.into());': [('a_failed_object_stays_the_failure_it_is', 'obj is Err', ('C08', 'C09', 'C01'))],
         }
     if group == 6:
         a.loops[2] = dict(ghost='it2', invariant=[('stack_context', 'stack.ctx == self'),
